@@ -256,6 +256,15 @@ def native_int_check(text):
     s = native.run_one("semantic " + native.hexs(f"int[128] x = {text};"), "dev")
     if native.failed(s):
         return True, "semantic analysis of `int[128] x = " + text + ";`: " + str(s)[:160]
+    # the value that reaches the graph against the mathematical value of the digits
+    import re as _re
+    m = _re.match(r"^0[xX]([0-9a-fA-F_]+)", text) or _re.match(r"^0[bB]([01_]+)", text) or _re.match(r"^0o([0-7_]+)", text) or _re.match(r"^([0-9][0-9_]*)", text)
+    if m and not s.get("syntax_errors"):
+        radix = 16 if text[:2] in ("0x", "0X") else 2 if text[:2] in ("0b", "0B") else 8 if text[:2] == "0o" else 10
+        digits = m.group(1).replace("_", "")
+        g = _re.search(r"IntLiteral \{ value: (\d+), sign: (true|false) \}", str(s.get("program", "")))
+        if digits and g and int(g.group(1)) != int(digits, radix):
+            return True, f"`int[128] x = {text};` stores the value {g.group(1)}, the digits denote {int(digits, radix)}"
     return False, ""
 
 
